@@ -26,8 +26,13 @@ def namesUnique (m : Model) : Prop := (m.subgraphs.flatMap fun sg => sg.tensors.
 structure ReqOK (pt : PTable) (m : Model) (r : TReq) : Prop where
   /-- the tensor exists … -/
   known : ∃ info, Py.dictGet? (nameMap m) r.name = some info
-  /-- … and is referenced by the graph (produced, consumed, or a graph output) -/
-  referenced : ∀ info, Py.dictGet? (nameMap m) r.name = some info → 0 ≤ info.producer ∨ info.consumers ≠ []
+  /-- … and is referenced by the graph: produced, consumed, a graph output, or a graph input
+      (the INPUT pseudo-operator emits a producer request for every graph input, also for one that
+      no operator consumes; all the graph stage needs is that the tensor is available at position
+      `producer + 1`, which holds for graph inputs) -/
+  referenced : ∀ info, Py.dictGet? (nameMap m) r.name = some info →
+    0 ≤ info.producer ∨ info.consumers ≠ [] ∨
+      ∃ sg, m.subgraphs[info.sg]? = some sg ∧ (info.tensorId : Int) ∈ sg.inputs
   /-- producer side: left float, or produced quantized (static range) -/
   prodShape : ∀ p, r.producer = some p → p.xfs = [.noQuant] ∨ p.xfs = [.addDequant]
   /-- consumer side: exactly one transformation each, never op replacement -/
@@ -420,7 +425,14 @@ theorem tensorInsts_ok (pt : PTable) (m : Model) (req : TReq) (ti : TInsts)
   obtain ⟨info, hinfo⟩ := hreq.known
   obtain ⟨s, sg, t, hsg, ht, rfl⟩ := nameMap_get m _ _ hinfo
   have hSg : SgOK m sg := ((modelOK_iff m).1 hwf).2.1 sg (List.mem_of_getElem? hsg)
-  have href := hreq.referenced _ hinfo
+  have href : 0 ≤ (tensorInfo s sg t).producer ∨ (tensorInfo s sg t).consumers ≠ [] ∨ (t : Int) ∈ sg.inputs := by
+    rcases hreq.referenced _ hinfo with h | h | ⟨sg', hsg', hin⟩
+    · exact .inl h
+    · exact .inr (.inl h)
+    · have hsg'' : m.subgraphs[s]? = some sg' := hsg'
+      rw [hsg] at hsg''
+      cases hsg''
+      exact .inr (.inr hin)
   obtain ⟨hcore, hpw⟩ := instsOf_ok pt m s sg t req hsg hinfo hreq
   rw [tensorInsts_eq] at h
   simp only [hinfo] at h
